@@ -8,7 +8,7 @@ TESTS = {
  "C03": "test/models test/examples/test_simple_gp_regression.py test/examples/test_sgpr_regression.py test/examples/test_kissgp_gp_regression.py test/examples/test_svgp_gp_regression.py test/test_module.py",
  "C04": "test/models test/examples/test_simple_gp_regression.py test/examples/test_kissgp_gp_regression.py test/likelihoods/test_gaussian_likelihood.py",
  "C05": "test/kernels test/functions --deselect test/kernels/test_spectral_mixture_kernel.py",
- "C06": "test/lazy test/kernels/test_rbf_kernel.py test/kernels/test_scale_kernel.py test/kernels/test_additive_and_product_kernels.py test/kernels/test_linear_kernel.py test/kernels/test_multitask_kernel.py",
+ "C06": "test/lazy test/kernels/test_rbf_kernel.py test/kernels/test_scale_kernel.py test/kernels/test_additive_and_product_kernels.py test/kernels/test_linear_kernel.py test/kernels/test_index_kernel.py test/examples/test_kronecker_multitask_gp_regression.py",
  "C07": "test/kernels/test_rbf_kernel.py test/kernels/test_matern_kernel.py test/distributions test/likelihoods/test_gaussian_likelihood.py test/examples/test_simple_gp_regression.py test/variational/test_variational_strategy.py",
  "C08": "test/kernels/test_rbf_kernel.py test/kernels/test_scale_kernel.py test/kernels/test_rq_kernel.py test/means test/likelihoods test/mlls test/examples/test_batch_gp_regression.py test/examples/test_batch_svgp_gp_regression.py test/examples/test_model_list_gp_regression.py",
  "C09": "test/kernels/test_grid_kernel.py test/kernels/test_grid_interpolation_kernel.py test/kernels/test_inducing_point_kernel.py test/kernels/test_index_kernel.py test/kernels/test_rff_kernel.py test/utils test/examples/test_sgpr_regression.py test/examples/test_kissgp_gp_regression.py",
